@@ -46,7 +46,13 @@ func genPriceInput(t *rapid.T) interface{} {
 	}
 	times := []int64{StartTimeNs, StartTimeNs + 1, StartTimeNs - 20e9, StartTimeNs + 7200e9}
 	for _, w := range rp.ByTime {
-		times = append(times, w.StartNs-1, w.StartNs, w.StartNs+1, w.EndNs-1, w.EndNs, w.EndNs+1, (w.StartNs+w.EndNs)/2)
+		if w.StartNs > -1<<62 && w.EndNs < 1<<62 {
+			times = append(times, w.StartNs-1, w.StartNs, w.StartNs+1, w.EndNs-1, w.EndNs, w.EndNs+1, (w.StartNs+w.EndNs)/2)
+		} else if w.StartNs > -1<<62 {
+			times = append(times, w.StartNs-1, w.StartNs, w.StartNs+1) // a window without an end in sight
+		} else if w.EndNs < 1<<62 {
+			times = append(times, w.EndNs-1, w.EndNs, w.EndNs+1) // a window that began before anybody counted
+		}
 	}
 	in.TimeNs = pick(t, "time", times)
 	vols := []uint64{0, 1, 2, 1000}
